@@ -217,6 +217,11 @@ func (c *otApplyContext) applyGSUB(table tables.GSUBLookup) bool {
 }
 
 func (c *otApplyContext) applySubsSequence(seq []gID) {
+	// the limit on the buffer length is only tested between two lookups:
+	// do not let one lookup multiply the glyphs beyond it
+	if b := c.buffer; len(seq) > 1 && len(b.outInfo)+len(b.Info)-b.idx+len(seq) > b.maxLen {
+		seq = seq[:1]
+	}
 	/* Special-case to make it in-place and not consider this
 	 * as a "multiplied" substitution. */
 	switch len(seq) {
